@@ -102,7 +102,7 @@ class HashSeedEngine(Engine):
         if tier == "quick":
             return {"runs": 1600, "k": 8, "deadline_s": 600, "shrink_s": 90, "level": "exploration", "max_reports": 3,
                     "pipeline_weight": 1.0, "expected_probes": EXPECTED_PROBES}
-        return {"runs": 40000, "k": 16, "deadline_s": 6000, "shrink_s": 300, "level": "exploration", "max_reports": 6,
+        return {"runs": 24000, "k": 16, "deadline_s": 3400, "shrink_s": 300, "level": "exploration", "max_reports": 6,
                 "pipeline_weight": 1.5, "expected_probes": EXPECTED_PROBES}
 
     # ------------------------------------------------------------ generation
